@@ -13,7 +13,8 @@ NEGS_C10 = {"NEG_C10_LifoLocalQueue.cfg": ["C10_StartOrderRespectsSendOrder"],
             "NEG_C10_RxDropAtThreadExit.cfg": ["C10_SpawnFalseWhenGone"],
             "NEG_C10_JoinEarly.cfg": ["C10_JoinAfterLoopEnd"],
             "NEG_C10_BlockOnInexact.cfg": ["C10_BlockOnOutput"],
-            "NEG_C10_DequeueBatchLosesWake.cfg": ["C10_AcceptedStarts"]}
+            "NEG_C10_DequeueBatchLosesWake.cfg": ["C10_AcceptedStarts"],
+            "NEG_C10_StopTakenByPollRecvIsDropped.cfg": ["C10_NothingAfterStop"]}
 
 
 def run(ctx):
@@ -38,7 +39,8 @@ def run(ctx):
                             ".. exit of the thread) sends through its handle and through Arbiter::current(); bursts of "
                             "40-100 commands queued on one arbiter while its thread is blocked in a task / on the system "
                             "arbiter before run() is entered, all of which must start; a System hosted by a thread on "
-                            "which an older, still living System is stopped and run to completion first"}
+                            "which an older, still living System is stopped and run to completion first; 2 x 400 (thorough 4 x 10000) "
+                            "attempts at stop() from another thread while the arbiter's loop is being polled, probes behind it"}
     rt.flow(ctx, flavour="c10", tcfg="Trace_C10.cfg",
             nt_rule="a run is non-trivial when two sends to the same arbiter were ordered by real-time precedence and "
                     "the later one started (order), or a send started after a stop() call on its arbiter had ended "
